@@ -64,6 +64,16 @@ func zzH_C19_buffer() {
 		zzAssert(t.RemainingBytes() == uint64(len(model)), "RemainingBytes differs from the unread length")
 		zzAssert(buf.Len() == len(model), "buffer length differs from the model")
 	}
+	// a large write (capacity beyond 64 KiB), then Close must still empty the buffer
+	if zzBool("bigWrite") {
+		big := zzBytes("big", zzInt("bigLen", 60000, 70000))
+		n, err := t.Write(big)
+		zzAssert(zzAnd(err == nil, n == len(big)), "large Write failed")
+		zzAssert(t.RemainingBytes() == uint64(len(model)+len(big)), "RemainingBytes wrong after a large write")
+		zzAssert(t.Close() == nil, "Close failed")
+		model = nil
+		zzAssert(zzAnd(t.RemainingBytes() == 0, buf.Len() == 0), "Close did not empty a large buffer")
+	}
 	zzAssert(t.Flush(nil) == nil, "Flush failed")
 	zzAssert(t.Open() == nil, "Open failed")
 	// NewDefaultTransport on a *bytes.Buffer is the same thing
